@@ -17,9 +17,12 @@ META = {
              "available = sum, total = power of the UNION of the signer sets, most voted = least hash among the targets of "
              "maximal power, all invariant under permutation of the entries; signers of distinct power below ByzantineMinority "
              "cannot reach any threshold the mirror kernel or the state machine's step function compares against "
-             "(no round skip, no delay step, not fully voted). At mirror level the consequence is proved for one message on a "
-             "fresh mirror (mirror_predict) and observed on the real Mirror for single messages and multi-message histories; "
-             "it is not proved over all mirror histories.",
+             "(no round skip, no delay step, not fully voted). At mirror level: for EVERY history of the mirror-kernel model the voting "
+             "and next-round views' available power is the sum of the view's own validator powers and the precommit block powers are the "
+             "recomputation from the view's proofs (Properties/C06Mirror.v); the summary of both views of the REAL mirror is recomputed by "
+             "a Coq monitor after every message of generated histories in which the validator set and its total power change at every "
+             "height; the sub-minority consequence is proved for one message on a fresh mirror (mirror_predict) and observed on "
+             "multi-message histories, not proved over all mirror histories.",
     "note": "Trusted: Coq kernel; the translator for tsi/step.go (cross-checked by the correspondence run); the hand-written model of "
             "votesummary.go/votedistribution.go/kernel.go comparisons (tied by differential execution on every run); "
             "bits-and-blooms/bitset and ed25519. The repo carries a fix: commit (totals from the union bitset); on the "
